@@ -82,9 +82,13 @@ static void case_layout(const Args &a, long idx, bool wantDesc, CaseResult &res,
         if (t <= 2) {   // separation
             unsigned u = (unsigned)R.ri(0, n - 1), v = (unsigned)R.ri(0, n - 1); if (u == v) continue;
             CSpec c; c.type = "separation"; c.dim = dim; c.eq = R.coin(0.25);
-            if (satisfiable) { if (hp(u, dim) > hp(v, dim)) std::swap(u, v); double diff = hp(v, dim) - hp(u, dim); c.gap = c.eq ? diff : diff * R.rd(0, 1); if (overlapMode && !c.eq) c.gap = std::min(c.gap, diff); }
+            if (satisfiable) { if (hp(u, dim) > hp(v, dim)) std::swap(u, v); double diff = hp(v, dim) - hp(u, dim); c.gap = c.eq ? diff : diff * R.rd(0, 1); if (overlapMode && !c.eq) c.gap = std::min(c.gap, diff);
+                // a bounded-distance constraint: v may be at most diff+slack beyond u (a separation with a negative gap in the other direction)
+                if (!c.eq && R.coin(0.3)) { std::swap(u, v); c.gap = -(diff + R.rd(0, 40)); } }
             else c.gap = R.rd(-20, 120);
             c.l = u; c.r = v; c.cc = new cola::SeparationConstraint((vpsc::Dim)dim, u, v, c.gap, c.eq); ccs.push_back(c.cc); specs.push_back(c);
+            // now and then a second, different separation over the very same ordered pair (both are distinct user constraints, reported separately)
+            if (!c.eq && !overlapMode && R.coin(0.12)) { CSpec c2 = c; c2.gap = satisfiable ? c.gap * R.rd(0, 1) : c.gap + R.rd(5, 40); c2.cc = new cola::SeparationConstraint((vpsc::Dim)dim, u, v, c2.gap, false); ccs.push_back(c2.cc); specs.push_back(c2); res.count("second_separations_on_the_same_ordered_pair"); }
         } else if (t <= 4) {   // alignment (optionally fixed position)
             AlignSpec al; al.dim = dim; unsigned base = (unsigned)R.ri(0, n - 1);
             cola::AlignmentConstraint *ac = new cola::AlignmentConstraint((vpsc::Dim)dim, R.coin(0.3) ? R.rd(0, 300) : 0.0);
@@ -180,9 +184,11 @@ static void case_layout(const Args &a, long idx, bool wantDesc, CaseResult &res,
     std::vector<std::vector<unsigned>> decoy;
     if (overlapMode && !clusters && n >= 3 && R.coin(0.25)) { std::vector<unsigned> g; for (unsigned i = 0; i < n; i++) if (R.coin(0.5)) g.push_back(i); if (g.size() >= 2) decoy.push_back(g); }
 
-    int driver = overlapMode ? 1 : (int)R.ri(0, 3);   // 0 run, 1 makeFeasible+run, 2 runOnce x k, 3 majorization
-    static const char *dn[] = {"run", "makeFeasible+run", "runOnce*k+run", "majorization.run"};
-    bool avoidOverlaps = overlapMode || (driver <= 1 && R.coin(0.3)); bool neighbourStress = R.coin(0.3);
+    int driver = overlapMode ? 1 : (int)R.ri(0, 3);   // 0 run, 1 makeFeasible+run, 2 runOnce x k, 3 majorization, 4 makeFeasible alone
+    bool feasibleOnly = driver == 1 && R.coin(overlapMode ? 0.15 : 0.4);   // "after makeFeasible() and/or run()": judged straight after makeFeasible()
+    if (feasibleOnly) { driver = 4; res.count(satisfiable ? "makeFeasible_only_cases_satisfiable" : "makeFeasible_only_cases_contradictory"); }
+    static const char *dn[] = {"run", "makeFeasible+run", "runOnce*k+run", "majorization.run", "makeFeasible"};
+    bool avoidOverlaps = overlapMode || ((driver <= 1 || driver == 4) && R.coin(driver == 4 ? 0.7 : 0.3)); bool neighbourStress = R.coin(0.3);
     if (driver == 3) avoidOverlaps = false;
     double ideal = R.rd(40, 120);
     // description
@@ -208,10 +214,10 @@ static void case_layout(const Args &a, long idx, bool wantDesc, CaseResult &res,
         if (avoidOverlaps) { if (exempt.empty() && !decoy.empty()) alg.setAvoidNodeOverlaps(true); else alg.setAvoidNodeOverlaps(true, exempt); }
         if (neighbourStress) alg.setUseNeighbourStress(true);
         if (root) alg.setClusterHierarchy(root);
-        if (driver == 1) { set_stage("makeFeasible"); alg.makeFeasible(); }
+        if (driver == 1 || driver == 4) { set_stage("makeFeasible"); alg.makeFeasible(); }
         // the property speaks of makeFeasible() and run(); single iterations are interleaved but the judged state is the one after run()
         if (driver == 2) { int k = (int)R.ri(1, 6); set_stage("runOnce"); for (int q = 0; q < k; q++) alg.runOnce(); }
-        set_stage("run"); alg.run();
+        if (driver != 4) { set_stage("run"); alg.run(); }
     } else {
         std::vector<double> el;
         cola::ConstrainedMajorizationLayout alg(rs, es, nullptr, ideal, el);
@@ -234,6 +240,7 @@ static void case_layout(const Args &a, long idx, bool wantDesc, CaseResult &res,
     }
     if (!finite) { res.violate("non-finite-coordinate", JObj().raw("case", desc).done()); return; }
     JArr fin; for (unsigned i = 0; i < n; i++) fin.raw(JArr().num(rs[i]->getCentreX()).num(rs[i]->getCentreY()).done());
+    bool negGapSep = false; for (auto &c : specs) if (c.type == "separation" && !c.eq && c.gap < 0) negGapSep = true;
     if (!overlapMode) {
         for (auto &c : specs) {
             res.count(std::string("constraints_checked.") + c.type);
@@ -241,7 +248,7 @@ static void case_layout(const Args &a, long idx, bool wantDesc, CaseResult &res,
             double v = evaluate(c, als, rs);
             res.maxi("max_violation_unexcused", v);
             // signature of F49: contradictory constraint set, the layout did report SOME constraint unsatisfiable, but not the one that ends up violated
-            if (v > 1e-4) { res.violate((!satisfiable && !excused.empty()) ? std::string("violated-and-not-reported[contradictory-set,another-constraint-was-reported]") : (satisfiable && avoidOverlaps && !excused.empty()) ? std::string("violated-and-not-reported[satisfiable-user-constraints-with-overlap-avoidance,other-constraints-were-reported]") : std::string(c.type) + ":violated-and-not-reported[" + dn[driver] + "]", JObj().num("violation", v).raw("constraint", cjson(c, als)).raw("reported_unsatisfiable", infoj.done()).raw("final_centres", fin.done()).raw("case", desc).done()); }
+            if (v > 1e-4) { res.violate((!satisfiable && !excused.empty()) ? std::string("violated-and-not-reported[contradictory-set,another-constraint-was-reported]") : (satisfiable && avoidOverlaps && !excused.empty()) ? std::string("violated-and-not-reported[satisfiable-user-constraints-with-overlap-avoidance,other-constraints-were-reported]") : std::string(c.type) + ":violated-and-not-reported[" + dn[driver] + (driver == 4 ? (satisfiable ? ",satisfiable-set" : ",contradictory-set") : "") + (driver != 4 && satisfiable && negGapSep ? ",set-has-a-negative-gap-separation" : "") + "]", JObj().num("violation", v).raw("constraint", cjson(c, als)).raw("reported_unsatisfiable", infoj.done()).raw("final_centres", fin.done()).raw("case", desc).done()); }
         }
         if (satisfiable && !excused.empty()) res.count("satisfiable_cases_with_reports(observation)");
         return;
